@@ -43,19 +43,18 @@ Theorem C15_retag_same : forall x, retag_doc (xns x) x = x.
 Proof. intro x. apply retag_same. Qed.
 Print Assumptions C15_retag_same.
 
-(* the smallest controller document: a skin whose joints are a Name_array *)
+(* the smallest document with a Name_array: an animation whose interpolation source is one *)
 Definition c15_witness (ns : atom) : xml :=
   El 1 ns a_COLLADA [] None
-    [El 2 ns a_library_controllers [] None
-       [El 3 ns a_controller [(a_id, AStr 1000)] None
-          [El 4 ns a_skin [(a_source, ARef true 1001)] None
-             [El 5 ns a_source [(a_id, AStr 1002)] None
-                [El 6 ns a_Name_array [(a_count, AInt 1)] (Some [TWord 1003]) [];
-                 El 7 ns a_technique_common [] None
-                   [El 8 ns a_accessor [(a_count, AInt 1)] None
-                      [El 9 ns a_param [(a_name, AStr a_JOINT); (a_type, AStr a_Name)] None []]]]]]]]%N.
+    [El 2 ns a_library_animations [] None
+       [El 3 ns a_animation [(a_id, AStr 1000)] None
+          [El 5 ns a_source [(a_id, AStr 1002)] None
+             [El 6 ns a_Name_array [(a_count, AInt 1)] (Some [TWord a_LINEAR]) [];
+              El 7 ns a_technique_common [] None
+                [El 8 ns a_accessor [(a_count, AInt 1)] None
+                   [El 9 ns a_param [(a_name, AStr a_INTERPOLATION); (a_type, AStr a_Name)] None []]]]]]]%N.
 
-(* non-vacuity of C15_ns_parametric: the witness loads, its controller carries the joint name, and the
+(* non-vacuity of C15_ns_parametric: the witness loads, its animation carries the source, and the
    1.5 namespace is fresh for it *)
 Example C15_witness_loads :
   uses_ns a_ns15 (c15_witness a_ns141) = false /\
@@ -64,8 +63,8 @@ Example C15_witness_loads :
 Proof. split; [reflexivity|]. split; [reflexivity|]. eexists. split; vm_compute; reflexivity. Qed.
 
 (* the code as it was before /repo c73fa9d (Name/IDREF source sites testing the 1.4.1 namespace whatever
-   the document says) is NOT namespace-parametric: in the 1.5 namespace the skin's Name_array is not
-   found and the controller fails with DaeIncompleteError *)
+   the document says) is NOT namespace-parametric: in the 1.5 namespace the Name_array is not
+   found and the animation fails with DaeIncompleteError *)
 Theorem C15_hardwired_site_refuted :
   uses_ns a_ns15 (c15_witness a_ns141) = false /\
   load_doc [] (erase_before_fix (retag_doc a_ns15 (c15_witness a_ns141))) = Raise DaeIncomplete /\
